@@ -558,7 +558,7 @@ def kani_file_playback(ob, info, scratch):
     wd = os.path.dirname(f)
     cmd = ["kani", f, "--harness", ob["harness"], "-Z", "concrete-playback", "--concrete-playback=print"]
     rc, out, err, secs, to = run(cmd, cwd=wd, timeout=900)
-    m = re.search(r"```\s*\n(#\[test\].*?)```", out, re.S)
+    m = re.search(r"```\s*\n(.*?#\[test\].*?)```", out, re.S)
     res = {"generated": bool(m), "cmd": " ".join(cmd)}
     if not m:
         res["note"] = "no concrete playback test printed"
@@ -578,8 +578,8 @@ def kani_playback(pkg, ob, flags, stage_dir, scratch):
            "-Z", "concrete-playback", "--concrete-playback=inplace", "-Z", "unstable-options", "--harness-timeout", "900s"]
     for z in sorted(set(flags)):
         cmd += ["-Z", z]
-    rc, out, err, secs, to = run(cmd, cwd=stage_dir, timeout=1200)
-    res = {"generated": False, "cmd": " ".join(cmd)}
+    rc, out, err, secs, to = run(cmd, cwd=stage_dir, timeout=int(os.environ.get("VERIF_PLAYBACK_TIMEOUT", "600")))
+    res = {"generated": False, "cmd": " ".join(cmd), "timed_out": to}
     m = re.search(r"fn (kani_concrete_playback_\w+)", out + err)
     # find the injected test in the staged sources
     test_name = None
@@ -876,27 +876,50 @@ def check(prop, tier, seed, units, scratch, t0, args):
             suffix = ""
             if o["id"].startswith("kanifile:"):
                 info = infos["verus"].get(o["id"].split(":")[1], {})
+                unit = [u for u in involved_units if u["name"] == o["unit"]][0]
+                found = False
+                for rpdef in unit.get("replay", []):
+                    if re.search(rpdef["for"], o["id"]):
+                        try:
+                            nat = native_replay(unit, rpdef, stage_dir, scratch)
+                        except Exception as e:
+                            nat = {"found_failing_input": False, "note": f"native replay crashed: {e}"}
+                        rep["native_search"] = nat
+                        found = bool(nat.get("found_failing_input"))
+                        break
                 try:
                     pb = kani_file_playback(o, info, scratch)
                 except Exception as e:
                     pb = {"generated": False, "note": f"playback crashed: {e}"}
                 rep["counterexample_playback"] = pb
-                if not pb.get("generated"):
+                if not found:
+                    # the extracted region's counterexample values are listed, but not executed on the whole crate
                     suffix = " no-failing-input-found"
             elif o["id"].startswith("kani:"):
                 pkg = [p for p, obs in kani_obs.items() if o in obs][0]
-                try:
-                    pb = kani_playback(pkg, o, kani_flags.get(pkg, ()), stage_dir, scratch)
-                except Exception as e:  # replay is best-effort
-                    pb = {"generated": False, "note": f"playback crashed: {e}"}
-                rep["counterexample_playback"] = pb
-                if not pb.get("generated"):
-                    suffix = " no-failing-input-found"
-                if pb.get("generated") and not pb.get("reproduced_on_real_code"):
-                    # Kani printed a counterexample but executing it natively did not fail (Kani's concrete playback is
-                    # known to be incomplete for values drawn inside callbacks): still a violation of an obligation
-                    # that holds on the unchanged tree, but without a validated failing input.
-                    suffix = " no-failing-input-found"
+                # 1. paired native search on the real code, if the unit declares one for this obligation (cheap)
+                unit = [u for u in involved_units if u["name"] == o["unit"]][0]
+                found = False
+                for rpdef in unit.get("replay", []):
+                    if re.search(rpdef["for"], o["id"]):
+                        try:
+                            nat = native_replay(unit, rpdef, stage_dir, scratch)
+                        except Exception as e:
+                            nat = {"found_failing_input": False, "note": f"native replay crashed: {e}"}
+                        rep["native_search"] = nat
+                        found = bool(nat.get("found_failing_input"))
+                        break
+                # 2. otherwise Kani's own counterexample, executed natively
+                if not found:
+                    try:
+                        pb = kani_playback(pkg, o, kani_flags.get(pkg, ()), stage_dir, scratch)
+                    except Exception as e:  # replay is best-effort
+                        pb = {"generated": False, "note": f"playback crashed: {e}"}
+                    rep["counterexample_playback"] = pb
+                    if not pb.get("reproduced_on_real_code"):
+                        # no counterexample, or one that does not fail natively (Kani's concrete playback loses values
+                        # drawn inside callbacks): still a violation of an obligation that holds on the unchanged tree
+                        suffix = " no-failing-input-found"
             else:
                 # Verus: paired native search, if the unit declares one for this obligation
                 unit = [u for u in involved_units if u["name"] == o["unit"]][0]
